@@ -639,3 +639,95 @@ func c06PropertyPairs(r *Rec) {
 	}
 	r.Case(label, true)
 }
+
+// c06BlacklistedVoter: voters that lose the vote permission by BLACKLISTING while the proposal they voted on is open (the
+// permission stays whitelisted for them, individually or through their role). The recorded finding about votes outnumbering
+// voters is about whitelist REMOVAL; on the code as it is a blacklisted voter is still counted among the available voters,
+// so these histories run through. Any panic here is a new way to halt the chain, whatever site it comes from.
+func c06BlacklistedVoter(r *Rec) {
+	for variant := 0; variant < 3; variant++ {
+		if r.Tier == "quick" && (variant+int(r.Seed))%3 == 2 {
+			continue
+		}
+		label := fmt.Sprintf("voter blacklisted after voting (%d)", variant)
+		r.Mark(label)
+		w := NewWorld(WorldOpts{NAcc: 6, NVal: 1, SudoAccs: []int{4, 5}})
+		gk := w.app.CustomGovKeeper
+		gms := govkeeper.NewMsgServerImpl(gk)
+		perm := govtypes.PermVoteSetNetworkPropertyProposal
+		var pid uint64
+		setupErr := ""
+		br := w.Block(nil, BlockOpts{Dt: 6 * time.Second, Mid: func(ctx sdk.Context) {
+			if variant == 1 { // account 3 holds the vote permission individually and votes too
+				a, ok := gk.GetNetworkActorByAddress(ctx, w.addrs[3])
+				if !ok {
+					a = govtypes.NewDefaultActor(w.addrs[3])
+				}
+				if err := gk.AddWhitelistPermission(ctx, a, perm); err != nil {
+					setupErr = err.Error()
+				}
+			}
+			cur, _ := gk.GetNetworkProperty(ctx, govtypes.MinTxFee)
+			m, err := govtypes.NewMsgSubmitProposal(w.addrs[5], "t", "d", govtypes.NewSetNetworkPropertyProposal(govtypes.MinTxFee, govtypes.NetworkPropertyValue{Value: cur.Value + 1}))
+			if err != nil {
+				setupErr = err.Error()
+				return
+			}
+			if err := withCache(ctx, func(cc sdk.Context) error {
+				res, e := gms.SubmitProposal(sdk.WrapSDKContext(cc), m)
+				if e == nil {
+					pid = res.ProposalID
+				}
+				return e
+			}); err != nil {
+				setupErr = err.Error()
+				return
+			}
+			voters := []int{4, 5}
+			if variant == 1 {
+				voters = append(voters, 3)
+			}
+			for _, i := range voters {
+				if err := withCache(ctx, func(cc sdk.Context) error {
+					_, e := gms.VoteProposal(sdk.WrapSDKContext(cc), govtypes.NewMsgVoteProposal(pid, w.addrs[i], govtypes.OptionYes, sdk.ZeroDec()))
+					return e
+				}); err != nil {
+					setupErr = fmt.Sprintf("vote of %d: %v", i, err)
+				}
+			}
+		}})
+		if br.Panicked != nil || setupErr != "" || pid == 0 {
+			r.Count("blacklisted-voter:setup-failed")
+			r.Notes = append(r.Notes, label+": set-up failed: "+setupErr+fmt.Sprint(br.Panicked))
+			continue
+		}
+		w.ApplyUpdates(br.Updates)
+		// one block later the blacklisting: of a role holder (variants 0, 2: one or both), or of the individual holder (1)
+		br = w.Block(nil, BlockOpts{Dt: 6 * time.Second, Mid: func(ctx sdk.Context) {
+			targets := map[int][]int{0: {4}, 1: {3}, 2: {4, 5}}[variant]
+			for _, t := range targets {
+				a, _ := gk.GetNetworkActorByAddress(ctx, w.addrs[t])
+				if err := gk.AddBlacklistPermission(ctx, a, perm); err != nil {
+					setupErr = err.Error()
+				}
+			}
+		}})
+		if br.Panicked != nil || setupErr != "" {
+			r.Count("blacklisted-voter:setup-failed")
+			continue
+		}
+		w.ApplyUpdates(br.Updates)
+		halted := false
+		for i := 0; i < 30 && !halted; i++ {
+			br := w.Block(nil, BlockOpts{Dt: 60 * time.Second})
+			if br.Panicked != nil {
+				halted = true
+				r.Fail("C06/gov-endblock/blacklisted-voter-halts", fmt.Sprintf("%s: block %d panicked in %s: %.200v", label, w.height, br.Phase, br.Panicked), nil)
+				break
+			}
+			w.ApplyUpdates(br.Updates)
+		}
+		r.Count(fmt.Sprintf("blacklisted-voter:halted=%v", halted))
+		r.Case(label, true)
+	}
+}
